@@ -18,7 +18,14 @@ BITS = {"byte": 8, "uint8": 8, "uint16": 16, "uint32": 32, "uint64": 64}
 _NT_CACHE = {}
 
 
+def is_bytes_shape(shape):
+    """'sbytes<N>' = abi.StaticBytes[N] (byte[N] set from a Python bytes value), 'dbytes' = abi.DynamicBytes (byte[])"""
+    return isinstance(shape, str) and (shape == "dbytes" or shape.startswith("sbytes"))
+
+
 def spec(shape):
+    if is_bytes_shape(shape):
+        return abi.DynamicBytesTypeSpec() if shape == "dbytes" else abi.StaticBytesTypeSpec(int(shape[6:]))
     if isinstance(shape, str):
         return {"bool": abi.BoolTypeSpec, "byte": abi.ByteTypeSpec, "uint8": abi.Uint8TypeSpec,
                 "uint16": abi.Uint16TypeSpec, "uint32": abi.Uint32TypeSpec, "uint64": abi.Uint64TypeSpec,
@@ -57,6 +64,8 @@ def decoy_instance(shape):
 
 def sig(shape):
     """ARC-4 signature string written independently of PyTeal"""
+    if is_bytes_shape(shape):
+        return "byte[]" if shape == "dbytes" else "byte[%s]" % shape[6:]
     if isinstance(shape, str):
         return shape
     k = shape[0]
@@ -72,6 +81,8 @@ def sdk_type(shape):
 
 
 def to_sdk(shape, v):
+    if is_bytes_shape(shape):
+        return list(bytes(v))
     if isinstance(shape, str):
         if shape == "address":
             return bytes(v)
@@ -96,6 +107,11 @@ def leaf_values(shape, rich=False):
         return [0, 1, m] if rich else [0, m]
     if shape == "address":
         return [bytes(32), bytes(range(32))]
+    if shape == "dbytes":
+        return [b"", b"\x00\xff", b"q" * 300]
+    if is_bytes_shape(shape):
+        n = int(shape[6:])
+        return [bytes(n), bytes((0xf0 + i) % 256 for i in range(n))]
     if shape == "string":
         # 300 bytes crosses the one-byte length boundary of the uint16 length prefix
         return [b"", b"a", b"xyz" * 30, b"q" * 300] if rich else [b"", b"hi", b"q" * 300]
@@ -208,6 +224,17 @@ def shapes(tier):
     out.append(["tuple", ["sarr", "byte", 253], "string", "address", "string"])
     out.append(["tuple", ["sarr", "uint64", 32], "uint64", ["tuple", "uint8", "uint16"]])
     out.append(["sarr", "address", 9])
+    # byte[N] / byte[] in their bytes-valued flavours (abi.StaticBytes / abi.DynamicBytes), alone and as members
+    for b in ("sbytes1", "sbytes4", "sbytes8", "sbytes32", "dbytes"):
+        out += [b, ["tuple", b], ["tuple", b, "uint8"], ["tuple", "bool", b, "bool"], ["sarr", b, 2], ["darr", b],
+                ["tuple", "string", b]]
+    # neighbouring members of ONE aggregate class but different sizes, nested so that the tuple's own static
+    # length matters (element of an outer tuple, element type of arrays)
+    for a, b in ((["sarr", "byte", 4], ["sarr", "byte", 8]), (["sarr", "uint8", 2], ["sarr", "uint16", 3]),
+                 (["sarr", "bool", 3], ["sarr", "bool", 9]), (["tuple", "uint8", "uint8"], ["tuple", "uint64"]),
+                 ("sbytes4", "sbytes8")):
+        for t in (["tuple", a, b], ["tuple", b, a, a]):
+            out += [["tuple", t, "uint8"], ["sarr", t, 2], ["darr", t], ["tuple", "bool", t, "uint16"]]
     out.append(["sarr", ["tuple", "uint64", "address"], 8])
     # de-duplicate
     seen, res = set(), []
@@ -243,7 +270,7 @@ def make(shape, v, mode, steps, inst=None, _share=None, _sub=False):
     if mode == "lit-sub":
         # every base-type part is an instance of a user subclass of its ABI class
         mode, _sub = "lit", True
-    if _sub and inst is None and isinstance(shape, str):
+    if _sub and inst is None and isinstance(shape, str) and not is_bytes_shape(shape):
         inst = sub_instance(shape)
     if _share is not None and inst is None:
         key = (repr(shape), repr(v))
@@ -260,7 +287,7 @@ def make(shape, v, mode, steps, inst=None, _share=None, _sub=False):
             steps.append(inst.set(v if mode == "lit" else pt.Int(v)))
         elif shape == "address":
             steps.append(inst.set(bytes(v) if mode == "lit" else pt.Bytes(bytes(v))))
-        elif shape == "string":
+        elif shape == "string" or is_bytes_shape(shape):
             steps.append(inst.set(bytes(v) if mode == "lit" else pt.Bytes(bytes(v))))
         return inst
     k = shape[0]
